@@ -6,6 +6,7 @@ import (
 	"fmt"
 	"go/types"
 	"math"
+	"math/big"
 	"strings"
 
 	"golang.org/x/tools/go/ssa"
@@ -196,6 +197,24 @@ func init() {
 		e.allocLimit = old
 		return nil, p
 	})
+	reg("InRange", func(e *Exec, fn *ssa.Function, args []Value, caller *Frame) (Value, *GoPanic) {
+		x := args[0].(*Term)
+		lo, hi := concInt(e, args[1], "range bound"), concInt(e, args[2], "range bound")
+		id := concStr(e, args[3], "assertion id")
+		if x.sort.K != KInt {
+			e.assertion(e.ctx.BAnd(e.ctx.Cmp(OpSle, e.ctx.Const(64, uint64(lo)), x), e.ctx.Cmp(OpSle, x, e.ctx.Const(64, uint64(hi)))), id)
+			return x, nil
+		}
+		c := e.ctx
+		e.assertion(c.BAnd(c.RCmp(OpRLe, c.IntConst(lo), x), c.RCmp(OpRLe, x, c.IntConst(hi))), id)
+		e.realN++
+		y := c.Var(fmt.Sprintf("ranged!%d", e.realN), IntSort)
+		e.assumeQuiet(c.Eq(y, x))
+		e.assumeQuiet(c.RCmp(OpRLe, c.IntConst(lo), y))
+		e.assumeQuiet(c.RCmp(OpRLe, y, c.IntConst(hi)))
+		c.setInfo(y, big.NewInt(lo), big.NewInt(hi), 0)
+		return y, nil
+	})
 	reg("F64", func(e *Exec, fn *ssa.Function, args []Value, caller *Frame) (Value, *GoPanic) {
 		if !e.arith {
 			e.unsupported("F64 input outside arithmetic mode")
@@ -206,6 +225,9 @@ func init() {
 		e.inputs = append(e.inputs, t)
 		e.assumeQuiet(e.ctx.RCmp(OpRLe, e.ctx.RealConstF(lo), t))
 		e.assumeQuiet(e.ctx.RCmp(OpRLe, t, e.ctx.RealConstF(hi)))
+		if lo >= 0 {
+			e.ctx.markNonNeg(t)
+		}
 		return RealV{t}, nil
 	})
 
@@ -407,6 +429,66 @@ func init() {
 	reg("ClockNs", func(e *Exec, fn *ssa.Function, args []Value, caller *Frame) (Value, *GoPanic) {
 		return clock(e), nil
 	})
+
+	// ---- math/big (only NewInt(x).Bytes(), as used by smf.MetaTempo) ----
+	intrinsics["math/big.NewInt"] = func(e *Exec, fn *ssa.Function, args []Value, caller *Frame) (Value, *GoPanic) {
+		obj := e.newObject(&StructV{f: []Value{args[0]}}, nil, "big.Int")
+		return Ptr{obj: obj}, nil
+	}
+	intrinsics["(*math/big.Int).Bytes"] = func(e *Exec, fn *ssa.Function, args []Value, caller *Frame) (Value, *GoPanic) {
+		x := args[0].(Ptr).obj.v.(*StructV).f[0].(*Term)
+		c := e.ctx
+		if x.IsConst() {
+			v := x.val
+			var bs []*Term
+			for v > 0 {
+				bs = append([]*Term{c.Const(8, v&0xFF)}, bs...)
+				v >>= 8
+			}
+			return e.bytesToSlice(bs), nil
+		}
+		if x.sort.K == KInt {
+			// minimal big-endian bytes of a non-negative value: case split on the byte length
+			if e.branch(c.RCmp(OpRLt, x, c.IntConst(0)), nil) {
+				e.unsupported("big.Int.Bytes of a negative value")
+			}
+			n := 0
+			lim := big.NewInt(1)
+			for ; n < 8; n++ {
+				if e.branch(c.RCmp(OpRLt, x, c.IntConstBig(lim)), nil) {
+					break
+				}
+				lim = new(big.Int).Lsh(lim, 8)
+			}
+			// the n bytes are fresh variables y_i in 0..255 with x = sum y_i * 256^(n-1-i) (linear, no div/mod)
+			bs := make([]*Term, n)
+			var sum *Term = c.IntConst(0)
+			for i := 0; i < n; i++ {
+				e.realN++
+				y := c.Var(fmt.Sprintf("byte!%d", e.realN), IntSort)
+				e.assumeQuiet(c.RCmp(OpRLe, c.IntConst(0), y))
+				e.assumeQuiet(c.RCmp(OpRLe, y, c.IntConst(255)))
+				c.setInfo(y, big.NewInt(0), big.NewInt(255), 0)
+				bs[i] = y
+				sum = c.RBin(OpRAdd, c.RBin(OpRMul, sum, c.IntConst(256)), y)
+			}
+			e.assumeQuiet(c.Eq(x, sum))
+			return e.bytesToSlice(bs), nil
+		}
+		// bit-vector mode: case split on the byte length
+		w := x.sort.W
+		n := 0
+		for ; n < w/8; n++ {
+			if e.branch(c.Cmp(OpUlt, x, c.Const(w, uint64(1)<<uint(8*n))), nil) {
+				break
+			}
+		}
+		bs := make([]*Term, n)
+		for i := 0; i < n; i++ {
+			bs[n-1-i] = c.Extract(x, 8*i+7, 8*i)
+		}
+		return e.bytesToSlice(bs), nil
+	}
 
 	// ---- math ----
 	math1 := func(name string, f func(float64) float64, mode string) {
